@@ -11,6 +11,9 @@ package main
 // of "superfluous response.WriteHeader" diagnostics net/http logged for the request, whether a
 // follow-up request on the same connection is answered, and - for panicking requests - whether
 // a concurrent in-flight request on another connection completes untouched.
+// Sequences (requests pipelined on concurrent connections) and nests (requests served completely while
+// another one is held at a gate inside its handler or in its response path, under one scheduler context)
+// compare every response, body bytes included, with the same request served alone.
 
 import (
 	"bufio"
@@ -26,6 +29,8 @@ import (
 	"net/http"
 	"os"
 	"path/filepath"
+	"runtime"
+	"runtime/debug"
 	"sort"
 	"strings"
 	"sync"
@@ -52,6 +57,9 @@ type c12Cfg struct {
 	Mime      bool   `json:"mime,omitempty"`   // mime .txt text/x-c12
 	Internal  bool   `json:"internal,omitempty"` // internal /int
 	Templates bool   `json:"templates,omitempty"`
+	// harness only (not part of the model's cfg): the site carries the test-only outermost directive c12gate, which
+	// is transparent except for requests that name a gate (nested cases)
+	Gated bool `json:"gated,omitempty"`
 }
 type c12Op struct {
 	// set | wh | w | f | panic (A = kind of the panic value) | read
@@ -78,6 +86,12 @@ type c12In struct {
 	Conn   int     `json:"conn,omitempty"` // sequences: requests with the same number share a connection
 	// a sequence of requests served one after the other by the same server (Path/Script unused)
 	Seq []c12In `json:"seq,omitempty"`
+	// nested service: while this request is held at its gate, the requests Inner (each possibly gated in turn) are
+	// served completely, one after the other, by the same site. Gate: "op" = at the script's op "gate" (inside the
+	// innermost handler); "hdr" = in the response path, when the header commit (WriteHeader, or the first Write/Flush)
+	// arrives on the connection side of every directive; "body" = there, at the first body Write
+	Gate  string  `json:"gate,omitempty"`
+	Inner []c12In `json:"inner,omitempty"`
 }
 
 // ---------------------------------------------------------------------------------------------
@@ -143,6 +157,10 @@ func (p c12Probe) ServeHTTP(w http.ResponseWriter, r *http.Request) (int, error)
 					return http.StatusRequestEntityTooLarge, err // what proxy does
 				}
 			}
+		case "gate":
+			if gid := r.Header.Get("X-C12-Gate"); gid != "" {
+				c12FireGate(gid, "op")
+			}
 		case "wait":
 			c12ByReached <- struct{}{}
 			select {
@@ -161,6 +179,65 @@ func (p c12Probe) ServeHTTP(w http.ResponseWriter, r *http.Request) (int, error)
 type c12PlainReader struct{ r io.Reader }
 
 func (p c12PlainReader) Read(b []byte) (int, error) { return p.r.Read(b) }
+
+// ---------------------------------------------------------------------------------------------
+// gate directive (outermost): holds a request in its response path while other requests are served
+
+type c12GateSpec struct {
+	kind  string
+	run   func()
+	fired bool
+}
+
+var c12Gates struct {
+	sync.Mutex
+	m map[string]*c12GateSpec
+}
+
+// c12FireGate runs the gate's action once, on the goroutine of the request that is held
+func c12FireGate(id, at string) {
+	c12Gates.Lock()
+	g := c12Gates.m[id]
+	var run func()
+	if g != nil && g.kind == at && !g.fired {
+		g.fired = true
+		run = g.run
+	}
+	c12Gates.Unlock()
+	if run != nil {
+		run()
+	}
+}
+
+type c12GateMW struct{ next httpserver.Handler }
+
+func (g c12GateMW) ServeHTTP(w http.ResponseWriter, r *http.Request) (int, error) {
+	id := r.Header.Get("X-C12-Gate")
+	if id == "" {
+		return g.next.ServeHTTP(w, r)
+	}
+	return g.next.ServeHTTP(&c12GateW{ResponseWriterWrapper: &httpserver.ResponseWriterWrapper{ResponseWriter: w}, id: id}, r)
+}
+
+// c12GateW sits between the site's directives and net/http's writer and passes everything on unchanged
+type c12GateW struct {
+	*httpserver.ResponseWriterWrapper
+	id string
+}
+
+func (w *c12GateW) WriteHeader(code int) {
+	c12FireGate(w.id, "hdr")
+	w.ResponseWriterWrapper.WriteHeader(code)
+}
+func (w *c12GateW) Write(b []byte) (int, error) {
+	c12FireGate(w.id, "hdr")
+	c12FireGate(w.id, "body")
+	return w.ResponseWriterWrapper.Write(b)
+}
+func (w *c12GateW) Flush() {
+	c12FireGate(w.id, "hdr")
+	w.ResponseWriterWrapper.Flush()
+}
 
 type c12PanicVal struct{ code int }
 
@@ -276,6 +353,14 @@ func c12Register() {
 	// the standard logger
 	log.SetOutput(&c12Log)
 	log.SetFlags(0)
+	c12Gates.m = map[string]*c12GateSpec{}
+	httpserver.RegisterDevDirective("c12gate", "root")
+	casket.RegisterPlugin("c12gate", casket.Plugin{ServerType: "http", Action: func(c *casket.Controller) error {
+		for c.Next() {
+		}
+		httpserver.GetConfig(c).AddMiddleware(func(next httpserver.Handler) httpserver.Handler { return c12GateMW{next} })
+		return nil
+	}})
 	httpserver.RegisterDevDirective("c12probe", "")
 	casket.RegisterPlugin("c12probe", casket.Plugin{ServerType: "http", Action: func(c *casket.Controller) error {
 		for c.Next() {
@@ -331,6 +416,9 @@ func c12SiteText(c c12Cfg) string {
 	root := c12Fixture()
 	var sb strings.Builder
 	sb.WriteString("root " + root + "\nc12probe\n")
+	if c.Gated {
+		sb.WriteString("c12gate\n")
+	}
 	if c.ReqID {
 		sb.WriteString("request_id\n")
 	}
@@ -468,12 +556,19 @@ type c12Resp struct {
 }
 
 func c12ReqBytes(addr, path, probe string, ae, closeConn bool, blen int) []byte {
+	return c12ReqBytesG(addr, path, probe, "", ae, closeConn, blen)
+}
+
+func c12ReqBytesG(addr, path, probe, gate string, ae, closeConn bool, blen int) []byte {
 	var sb bytes.Buffer
 	method := "GET"
 	if blen > 0 {
 		method = "POST"
 	}
 	fmt.Fprintf(&sb, "%s %s HTTP/1.1\r\nHost: %s\r\nX-C12-Probe: %s\r\n", method, path, addr, probe)
+	if gate != "" {
+		fmt.Fprintf(&sb, "X-C12-Gate: %s\r\n", gate)
+	}
 	if ae {
 		sb.WriteString("Accept-Encoding: gzip\r\n")
 	}
@@ -1027,11 +1122,161 @@ func c12RunSeq(in *c12In) Result {
 		Sig: "sequence", Class: fmt.Sprintf("sequence:conns=%d:panics=%d", len(order), pan), Nontrivial: pan > 0 && n > pan}
 }
 
+// c12One: one request on its own connection
+func c12One(addr string, q *c12In, probe, gate string) c12Resp {
+	conn, err := net.DialTimeout("tcp", addr, 2*time.Second)
+	if err != nil {
+		return c12Resp{Err: "dial: " + err.Error()}
+	}
+	defer conn.Close()
+	conn.SetDeadline(time.Now().Add(8 * time.Second))
+	if _, err := conn.Write(c12ReqBytesG(addr, q.Path, probe, gate, q.AE, true, q.Blen)); err != nil {
+		return c12Resp{Err: "write: " + err.Error()}
+	}
+	return c12ReadResp(bufio.NewReader(conn))
+}
+
+// c12Flat lists the requests of a nest in pre-order
+func c12Flat(in *c12In, out []*c12In) []*c12In {
+	out = append(out, in)
+	for i := range in.Inner {
+		out = c12Flat(&in.Inner[i], out)
+	}
+	return out
+}
+
+func c12NestTerm(in *c12In) string {
+	var inner []string
+	for i := range in.Inner {
+		inner = append(inner, c12NestTerm(&in.Inner[i]))
+	}
+	return cApp("Nest", c12ReqTerm(in), cList(inner))
+}
+
+// c12RunNest: every request of the nest is first served alone; then the outermost one is sent with its gate armed:
+// when it reaches the gate - on its own server goroutine, inside the handler or in its response path - its inner
+// requests are served completely (each on a connection of its own, gated in turn if it has inner requests), and only
+// then does it go on. One scheduler context and no collection while the nest runs, so that the sync.Pools hand an
+// object that was put back to the very next Get: an object given back too early is then seen by the inner request.
+// Every response of the nested run must equal the one of the solo run.
+func c12RunNest(in *c12In) Result {
+	site, err := c12Site(c12SiteText(in.Cfg))
+	if err != nil {
+		return Result{Term: "CSkip", Obs: "setup: " + err.Error(), Sig: "setup-error", Class: "setup-error"}
+	}
+	flat := c12Flat(in, nil)
+	n := len(flat)
+	index := map[*c12In]int{}
+	ids := make([]string, n)
+	c12Scripts.Lock()
+	for i, q := range flat {
+		index[q] = i
+		c12Seq++
+		ids[i] = fmt.Sprintf("n%d", c12Seq)
+		c12Scripts.m[ids[i]] = c12Script{script: q.Script, ret: q.Ret, err: q.Err}
+	}
+	c12Scripts.Unlock()
+	defer func() {
+		c12Scripts.Lock()
+		for _, id := range ids {
+			delete(c12Scripts.m, id)
+		}
+		c12Scripts.Unlock()
+		c12Gates.Lock()
+		for _, id := range ids {
+			delete(c12Gates.m, id)
+		}
+		c12Gates.Unlock()
+	}()
+	allOK := true
+	solo := make([]c12Observed, n)
+	soloSup := 0
+	for i, q := range flat {
+		sup0, ep0 := c12SupCount()
+		r := c12One(site.addr, q, ids[i], "")
+		time.Sleep(time.Millisecond)
+		sup1, ep1 := c12SupCount()
+		sup := sup1 - sup0
+		if ep0 != ep1 {
+			sup = sup1
+		}
+		soloSup += sup
+		solo[i] = c12Observe(r, sup)
+		if !solo[i].respOK {
+			allOK = false
+		}
+	}
+	// the nest
+	nestResp := make([]c12Resp, n)
+	served := make([]bool, n)
+	var serve func(q *c12In)
+	serve = func(q *c12In) {
+		i := index[q]
+		gate := ""
+		if len(q.Inner) > 0 {
+			gate = ids[i]
+			c12Gates.Lock()
+			c12Gates.m[gate] = &c12GateSpec{kind: q.Gate, run: func() {
+				for k := range q.Inner {
+					serve(&q.Inner[k])
+				}
+			}}
+			c12Gates.Unlock()
+		}
+		nestResp[i] = c12One(site.addr, q, ids[i], gate)
+		served[i] = true
+	}
+	sup0, ep0 := c12SupCount()
+	prevProcs := runtime.GOMAXPROCS(1)
+	prevGC := debug.SetGCPercent(-1)
+	serve(in)
+	reached := true
+	for i, q := range flat { // a gate that was never reached (panic before the gate op, no body): serve what is left afterwards
+		if !served[i] {
+			reached = false
+			serve(q)
+		}
+	}
+	debug.SetGCPercent(prevGC)
+	runtime.GOMAXPROCS(prevProcs)
+	time.Sleep(2 * time.Millisecond)
+	sup1, ep1 := c12SupCount()
+	nestSup := sup1 - sup0
+	if ep0 != ep1 {
+		nestSup = sup1
+	}
+	if nestSup != soloSup {
+		allOK = false
+	}
+	var items []string
+	var obsList []interface{}
+	pan := 0
+	for i, q := range flat {
+		// superfluous-WriteHeader diagnostics of overlapping requests cannot be told apart: the totals are compared
+		// above, each observation carries the solo count
+		so := c12Observe(nestResp[i], solo[i].sup)
+		if !so.respOK {
+			allOK = false
+		}
+		items = append(items, cPair(so.term, solo[i].term))
+		obsList = append(obsList, map[string]interface{}{"path": q.Path, "gate": q.Gate, "inner": len(q.Inner), "nested": so.obs, "solo": solo[i].obs})
+		if c12ShapeOf(&c12In{Cfg: in.Cfg, Path: q.Path, Script: q.Script, Ret: q.Ret, Err: q.Err}).panics {
+			pan++
+		}
+	}
+	term := cApp("CNest", c12CfgTerm(in.Cfg), c12NestTerm(in), cList(items), cBool(allOK))
+	return Result{Term: term, Obs: map[string]interface{}{"requests": obsList, "nest_sup": nestSup, "solo_sup": soloSup, "gates_reached": reached, "site": c12SiteText(in.Cfg)},
+		Sig: "nested", Class: fmt.Sprintf("nested:gate=%s:n=%d:panics=%d:reached=%v", in.Gate, n, pan, reached), Nontrivial: n >= 2 && reached}
+}
+
 func c12Run(in0 interface{}) Result {
 	in := c12Expand(in0.(*c12In))
 	c12Register()
 	if len(in.Seq) > 0 {
 		return c12RunSeq(in)
+	}
+	if len(in.Inner) > 0 {
+		return c12RunNest(in)
 	}
 	site, err := c12Site(c12SiteText(in.Cfg))
 	sig := c12Sig(in)
@@ -1503,6 +1748,71 @@ func c12SeqCase(r *Rand) *c12In {
 	return in
 }
 
+// c12NestCase: a request held at a gate (inside its handler / at the header commit / at the first body write on the
+// connection side of every directive) while one or two other requests of the site - one of them possibly held in
+// turn - are served completely. The outer request is mostly one whose response templates buffers and then passes
+// through or renders, or gzip compresses: the ones that hold a pooled object while they are in flight.
+func c12NestCase(r *Rand) *c12In {
+	c := c12RandomCfg(r)
+	if r.Chance(85) {
+		c.Templates = true
+	}
+	if r.Chance(45) {
+		c.Gzip = true
+	}
+	c.Limits = false
+	c.Gated = true
+	html := c12Op{K: "set", A: "Content-Type", B: "text/html; charset=utf-8"}
+	w := func(s string) c12Op { return c12Op{K: "w", D: s} }
+	held := func(tag string) c12In {
+		own := "<p>page of " + tag + " " + r.Pick([]string{"0123456789", "abcdefghijklmnopqrstuvwxyz", "x"}) + "</p>"
+		var q c12In
+		switch r.Intn(8) {
+		case 0: // wrote, returned (0, err): passed through by templates
+			q = c12In{Script: []c12Op{html, {K: "wh", N: 200}, w(own)}, Ret: 0, Err: true}
+		case 1: // wrote a redirect and returned its status: passed through
+			st := []int{301, 302, 307}[r.Intn(3)]
+			q = c12In{Script: []c12Op{html, {K: "set", A: "Location", B: "/there"}, {K: "wh", N: st}, w(own)}, Ret: st}
+		case 2: // a page templates renders
+			q = c12In{Script: []c12Op{html, w(own), w(" second chunk")}}
+		case 3: // streamed
+			q = c12In{Script: []c12Op{w(own), {K: "f"}, w(" after flush")}}
+		case 4: // error status without writing
+			q = c12In{Ret: []int{404, 500, 403}[r.Intn(3)], Err: r.Bool()}
+		case 5: // panics while templates buffers
+			q = c12In{Script: []c12Op{html, w(own), {K: "panic"}}}
+		case 6: // wrote, implicit header, returned (0, err)
+			q = c12In{Script: []c12Op{html, w(own)}, Ret: 0, Err: true}
+		default:
+			q = c12RandomScript(r)
+		}
+		q.Path = r.Pick([]string{"/x.html", "/x.html", "/y.html", "/dir/y.html", "/x.txt", "/x"})
+		q.AE = r.Chance(50)
+		return q
+	}
+	gateOf := func(q *c12In) {
+		q.Gate = r.Pick([]string{"hdr", "hdr", "body", "op"})
+		if q.Gate == "op" {
+			k := r.Intn(len(q.Script) + 1)
+			sc := append([]c12Op{}, q.Script[:k]...)
+			sc = append(sc, c12Op{K: "gate"})
+			q.Script = append(sc, q.Script[k:]...)
+		}
+	}
+	a := held("the first client")
+	gateOf(&a)
+	for k := r.Range(1, 2); k > 0; k-- {
+		b := held(fmt.Sprintf("client %d", k+1))
+		if r.Chance(20) {
+			gateOf(&b)
+			b.Inner = []c12In{held("the innermost client")}
+		}
+		a.Inner = append(a.Inner, b)
+	}
+	a.Cfg = c
+	return &a
+}
+
 func c12Gen(r *Rand, tier string) []interface{} {
 	r = NewRand(r.U64())
 	var out []interface{}
@@ -1619,6 +1929,11 @@ func c12Gen(r *Rand, tier string) []interface{} {
 	for i := 0; i < nSeq; i++ {
 		out = append(out, c12SeqCase(r))
 	}
+	// nests: requests served completely while another one is held inside its handler or in its response path
+	rn := NewRand(r.U64())
+	for i := 0; i < nSeq; i++ {
+		out = append(out, c12NestCase(rn))
+	}
 	return out
 }
 
@@ -1637,7 +1952,7 @@ func init() {
 	_ = sort.Strings
 	register(&Property{
 		ID: "C12", Imports: "V.Lib V.C12_Model", Judge: "judge", Shard: 400,
-		Rule: "every case = one real HTTP/1.1 round trip (plus a follow-up request on the same connection that goes through templates' buffer pool and gzip's writer pool, and for panicking handlers a concurrent in-flight request) against an in-process casket site made of a subset of request_id/limits/log/rewrite/gzip/header/errors(8 variants)/redir/status/mime/internal/templates around a scripted innermost handler, or a sequence of 3-6 such requests (panicking ones included) served alone and then pipelined on one to three concurrent connections; non-trivial = at least two response-relevant wrappers are active for the request (sequences: a panicking and a normal request); distinct = distinct case term",
+		Rule: "every case = one real HTTP/1.1 round trip (plus a follow-up request on the same connection that goes through templates' buffer pool and gzip's writer pool, and for panicking handlers a concurrent in-flight request) against an in-process casket site made of a subset of request_id/limits/log/rewrite/gzip/header/errors(8 variants)/redir/status/mime/internal/templates around a scripted innermost handler, or a sequence of 3-6 such requests (panicking ones included) served alone and then pipelined on one to three concurrent connections, or a NEST: a request held at a gate - the op `gate` of its script (inside the innermost handler), or the test-only outermost directive c12gate at its header commit / first body write on the connection side of every directive - while one or two other requests of the site (one of them possibly held in turn) are served completely, under GOMAXPROCS(1) with the collector off so that the sync.Pools hand an object put back to the very next Get; every response of the sequence / nest is compared, body bytes included, with the same request served alone; non-trivial = at least two response-relevant wrappers are active for the request (sequences: a panicking and a normal request); distinct = distinct case term",
 		Gen: c12Gen,
 		Decode: func(raw json.RawMessage) (interface{}, error) {
 			in := &c12In{}
